@@ -348,6 +348,52 @@ pub fn sweep(values_per_type: usize) -> (Vec<IoPlan>, Vec<(String, usize)>) {
             }
         }
     }
+    // (i) history variants: the same single-fault cases, but after a successful round trip of the
+    // intact record on the same stream (and, for writer faults, followed by a second record that
+    // must be written correctly after the first write failed). A stateless implementation cannot
+    // tell the difference; one that keeps per-thread or global state between calls can.
+    let b = plans.len();
+    let base: Vec<IoPlan> = plans.iter().filter(|p| p.records.len() == 1 && p.reads.len() == 1).cloned().collect();
+    for p in base {
+        let r0 = p.records[0].clone();
+        let len = r0.ty.len(r0.c);
+        if !p.sfaults.is_empty() && p.wscript.is_empty() && p.rscript.is_empty() {
+            // [R, R'] written intact; the faults hit the second copy; both are read
+            let keep = match &p.sfaults[0] {
+                SFault::Flip { bit, .. } => bit % 3 == 0 || *bit < 16, // every third bit: keeps the sweep affordable
+                _ => true,
+            };
+            if !keep {
+                continue;
+            }
+            let mut q = p.clone();
+            q.stratum = format!("{}+after_valid", p.stratum);
+            q.records = vec![r0.clone(), r0.clone()];
+            q.reads = vec![p.reads[0].clone(), p.reads[0].clone()];
+            q.sfaults = p
+                .sfaults
+                .iter()
+                .map(|f| match f {
+                    SFault::Truncate { at, label } => SFault::Truncate { at: at + len, label: label.clone() },
+                    SFault::Flip { bit, label } => SFault::Flip { bit: bit + 8 * len, label: label.clone() },
+                    SFault::Splice { off, del, ins, label } => SFault::Splice { off: if *off > usize::MAX / 4 { *off } else { off + len }, del: *del, ins: ins.clone(), label: label.clone() },
+                })
+                .collect();
+            // the first read must see the record the caller's flag announces
+            q.reads[0] = ReadSpec { ty: r0.ty, c: r0.c };
+            plans.push(q);
+        } else if !p.wscript.is_empty() && p.sfaults.is_empty() && p.rscript.is_empty() && !matches!(p.wscript.last(), Some(Act::FailForever(_))) && p.wscript.len() % 4 == 1 {
+            // a failed (or short) write of R, then a second record of the same type on the same stream
+            let mut q = p.clone();
+            q.stratum = format!("{}+then_second_record", p.stratum);
+            let v2 = sweep_values(r0.ty, 3)[2].clone();
+            q.records = vec![r0.clone(), Rec { ty: r0.ty, c: r0.c, v: v2 }];
+            q.reads = vec![];
+            plans.push(q);
+        }
+    }
+    dim("single_fault_after_valid_history", b, &plans);
+
     // (h) every ordered pair of record kinds back to back: exact consumption in context
     let b = plans.len();
     for &t1 in ALL_TY.iter() {
